@@ -540,4 +540,213 @@ theorem parseRequest_safe (cfg : Cfg) (h9 : 9 ≤ cfg.minLen) (data : Bytes) : (
       simp only [hr, if_false, hs, orPanic_some, ok_bind]
       exact parseBody_safe cfg _
 
+
+/-! ## parsing a well-formed request -/
+
+/-- the cap applied while known fields are appended one by one -/
+def capLoop (max : Nat) : List Bytes → List Bytes → Outcome (List Bytes)
+  | acc, [] => .ok acc
+  | acc, f :: fs => if (acc ++ [f]).length > max then .error .tooManyFields else capLoop max (acc ++ [f]) fs
+
+theorem capLoop_eq (max : Nat) (known acc : List Bytes) (hacc : acc.length ≤ max) :
+    capLoop max acc known =
+      if acc.length + known.length > max then .error .tooManyFields else .ok (acc ++ known) := by
+  induction known generalizing acc with
+  | nil =>
+    simp [capLoop]; omega
+  | cons f fs ih =>
+    unfold capLoop
+    by_cases h : (acc ++ [f]).length > max
+    · have h' : acc.length + (f :: fs).length > max := by simp at h ⊢; omega
+      rw [if_pos h, if_pos h']
+    · rw [if_neg h, ih (acc ++ [f]) (by omega)]
+      have e : (acc ++ [f]).length + fs.length = acc.length + (f :: fs).length := by simp; omega
+      rw [e]
+      simp
+
+theorem fieldsLoop_join (cfg : Cfg) (hempty : cfg.isQueryField [] = false) (raw : List Bytes)
+    (hraw : ∀ f ∈ raw, ∀ x ∈ f, x ≠ 0x5c) (acc : List Bytes) (fuel : Nat)
+    (hfuel : (joinFields raw).length < fuel) :
+    fieldsLoop cfg fuel (joinFields raw) acc = capLoop cfg.maxFields acc (raw.filter cfg.isQueryField) := by
+  induction raw generalizing acc fuel with
+  | nil =>
+    cases fuel with
+    | zero => omega
+    | succ k => simp [joinFields, fieldsLoop, capLoop]
+  | cons f tail ih =>
+    cases fuel with
+    | zero => omega
+    | succ k =>
+      have hf : ∀ x ∈ f, x ≠ 0x5c := hraw f (by simp)
+      have htail : ∀ g ∈ tail, ∀ x ∈ g, x ≠ 0x5c := fun g hg => hraw g (by simp [hg])
+      cases tail with
+      | nil =>
+        simp only [joinFields] at hfuel ⊢
+        by_cases hfe : f = []
+        · subst hfe
+          simp [fieldsLoop, hempty, capLoop]
+        · have hpos : f.length > 0 := List.length_pos_iff.mpr hfe
+          have hk : (joinFields []).length < k := by simp [joinFields]; omega
+          unfold fieldsLoop
+          simp only [hpos, if_true, consumeString_eq, consumeS_nodelim 0x5c f hf, ok_bind]
+          have ih0 := fun acc' => ih (fun g hg => by cases hg) acc' k hk
+          simp only [joinFields, List.filter_nil] at ih0
+          by_cases hq : cfg.isQueryField f = true
+          · simp only [hq, Bool.not_true, Bool.false_eq_true, if_false, List.filter_cons, if_true, List.filter_nil, capLoop]
+            split
+            · rfl
+            · exact ih0 _
+          · have hq' : cfg.isQueryField f = false := by simpa using hq
+            simp only [hq', Bool.not_false, if_true, List.filter_cons, Bool.false_eq_true, if_false, List.filter_nil]
+            exact ih0 _
+      | cons g rest =>
+        have hJ : joinFields (f :: g :: rest) = f ++ 0x5c :: joinFields (g :: rest) := rfl
+        rw [hJ] at hfuel ⊢
+        have hk : (joinFields (g :: rest)).length < k := by simp at hfuel; omega
+        have hpos : (f ++ 0x5c :: joinFields (g :: rest)).length > 0 := by simp; omega
+        have hfilt : (f :: g :: rest).filter cfg.isQueryField =
+            if cfg.isQueryField f = true then f :: (g :: rest).filter cfg.isQueryField else (g :: rest).filter cfg.isQueryField :=
+          List.filter_cons
+        unfold fieldsLoop
+        rw [hfilt]
+        simp only [hpos, if_true, consumeString_eq, consumeS_prefix 0x5c f hf, ok_bind]
+        by_cases hq : cfg.isQueryField f = true
+        · simp only [hq, Bool.not_true, Bool.false_eq_true, if_false, if_true]
+          rw [capLoop]
+          split
+          · rfl
+          · exact ih htail _ k hk
+        · have hq' : cfg.isQueryField f = false := by simpa using hq
+          simp only [hq', Bool.not_false, if_true, Bool.false_eq_true, if_false]
+          exact ih htail _ k hk
+
+theorem joinFields_nulFree (raw : List Bytes) (h : ∀ f ∈ raw, ∀ x ∈ f, x ≠ 0) : ∀ x ∈ joinFields raw, x ≠ 0 := by
+  induction raw with
+  | nil => intro x hx; cases hx
+  | cons f tail ih =>
+    cases tail with
+    | nil => exact h f (by simp)
+    | cons g rest =>
+      intro x hx
+      have hJ : joinFields (f :: g :: rest) = f ++ 0x5c :: joinFields (g :: rest) := rfl
+      rw [hJ, List.mem_append, List.mem_cons] at hx
+      rcases hx with hx | hx | hx
+      · exact h f (by simp) x hx
+      · subst hx; decide
+      · exact ih (fun g' hg' => h g' (by simp [hg'])) x hx
+
+theorem skipCString_prefix (v : Bytes) (hv : NulFree v) (rest : Bytes) : skipCString (v ++ 0 :: rest) = .ok rest := by
+  simp only [skipCString, consumeCString, consumeString_eq, consumeS_prefix 0 v hv, ok_bind, pure_eq_ok]
+
+theorem parseFilters_prefix (v : Bytes) (hv : NulFree v) (rest : Bytes) :
+    parseFilters (v ++ 0 :: rest) = .ok (v, rest) := by
+  simp only [parseFilters, consumeCString, consumeString_eq, consumeS_prefix 0 v hv, ok_bind, pure_eq_ok]
+
+theorem parseFields_joined (cfg : Cfg) (hempty : cfg.isQueryField [] = false) (raw : List Bytes)
+    (hraw : ∀ f ∈ raw, ∀ x ∈ f, x ≠ 0 ∧ x ≠ 0x5c) (rest : Bytes) :
+    parseFields cfg (0x5c :: (joinFields raw ++ 0 :: rest)) =
+      if (raw.filter cfg.isQueryField).length > cfg.maxFields then .error .tooManyFields
+      else if (raw.filter cfg.isQueryField).length = 0 then .error .noFields
+      else .ok (raw.filter cfg.isQueryField, rest) := by
+  have hnul : NulFree (0x5c :: joinFields raw) := by
+    intro x hx
+    rw [List.mem_cons] at hx
+    rcases hx with hx | hx
+    · subst hx; decide
+    · exact joinFields_nulFree raw (fun f hf x hx => (hraw f hf x hx).1) x hx
+  have e : (0x5c : UInt8) :: (joinFields raw ++ 0 :: rest) = (0x5c :: joinFields raw) ++ 0 :: rest := rfl
+  have hlen : ¬ (0x5c :: joinFields raw).length < 1 := by simp
+  have hidx : goIndex (0x5c :: joinFields raw) 0 = some 0x5c := rfl
+  have hsl : goSlice (0x5c :: joinFields raw) 1 (0x5c :: joinFields raw).length = some (joinFields raw) := by
+    rw [goSlice_drop _ 1 (by simp)]; rfl
+  have hne : ¬ ((0x5c : UInt8) ≠ 0x5c) := by decide
+  rw [e]
+  simp only [parseFields, consumeCString, consumeString_eq, consumeS_prefix 0 _ hnul, ok_bind, hlen, if_false, hidx,
+    orPanic_some, hsl]
+  rw [if_neg hne]
+  rw [fieldsLoop_join cfg hempty raw (fun f hf x hx => (hraw f hf x hx).2) [] _ (by omega),
+    capLoop_eq _ _ [] (by simp)]
+  simp only [List.length_nil, Nat.zero_add, List.nil_append]
+  by_cases hmax : (raw.filter cfg.isQueryField).length > cfg.maxFields
+  · rw [if_pos hmax, if_pos hmax]; rfl
+  · rw [if_neg hmax, if_neg hmax]; rfl
+
+
+theorem validateOptionsMask_wf (b : Bool) : validateOptionsMask [0, 0, 0, if b then 1 else 0] = .ok () := by
+  cases b <;> simp [validateOptionsMask, be32?, goIndex]
+
+theorem be16?_prefix (n : Nat) (hn : n < 65536) :
+    be16? [UInt8.ofNat (n / 256), UInt8.ofNat (n % 256)] = some n := by
+  simp only [be16?, goIndex, List.getElem?_cons_succ, List.getElem?_cons_zero, UInt8.toNat_ofNat']
+  congr 1
+  omega
+
+theorem reqBody_length_ge (r : ListRequest) (h : WfReq r) : 24 ≤ (reqBody r).length := by
+  have := h.header
+  simp [reqBody]
+  omega
+
+theorem parseBody_wf (cfg : Cfg) (hempty : cfg.isQueryField [] = false) (r : ListRequest) (h : WfReq r) :
+    parseBody cfg (r.gameName ++ 0 :: (r.queryGame ++ 0 :: (r.challenge.toList ++ (r.filter ++ 0 ::
+      (0x5c :: (joinFields r.rawFields ++ 0 :: [0, 0, 0, if r.withFields then 1 else 0])))))) =
+      if (knownFields cfg.isQueryField r).length > cfg.maxFields then .error .tooManyFields
+      else if (knownFields cfg.isQueryField r).length = 0 then .error .noFields
+      else .ok { filters := r.filter, fields := knownFields cfg.isQueryField r, challenge := r.challenge } := by
+  have h8 : 8 ≤ (r.challenge.toList ++ (r.filter ++ 0 ::
+      (0x5c :: (joinFields r.rawFields ++ 0 :: [0, 0, 0, if r.withFields then 1 else 0])))).length := by simp
+  obtain ⟨ch, hch, hlist⟩ := parseChallenge_eq _ h8
+  have hl8 : r.challenge.toList.length = 8 := by simp
+  have htake : (r.challenge.toList ++ (r.filter ++ 0 ::
+      (0x5c :: (joinFields r.rawFields ++ 0 :: [0, 0, 0, if r.withFields then 1 else 0])))).take 8 = r.challenge.toList := by
+    rw [List.take_append_of_le_length (by omega), List.take_of_length_le (by omega)]
+  have hdrop : (r.challenge.toList ++ (r.filter ++ 0 ::
+      (0x5c :: (joinFields r.rawFields ++ 0 :: [0, 0, 0, if r.withFields then 1 else 0])))).drop 8 = (r.filter ++ 0 ::
+      (0x5c :: (joinFields r.rawFields ++ 0 :: [0, 0, 0, if r.withFields then 1 else 0]))) := List.drop_left' hl8
+  rw [htake] at hlist
+  have hchEq : ch = r.challenge := by
+    apply Vector.toList_inj.mp hlist
+  rw [hdrop, hchEq] at hch
+  simp only [parseBody, skipCString_prefix r.gameName h.gameName, skipCString_prefix r.queryGame h.queryGame, ok_bind, hch,
+    parseFilters_prefix r.filter h.filter, parseFields_joined cfg hempty r.rawFields h.fields]
+  unfold knownFields
+  by_cases hmax : (r.rawFields.filter cfg.isQueryField).length > cfg.maxFields
+  · rw [if_pos hmax, if_pos hmax]; rfl
+  · rw [if_neg hmax, if_neg hmax]
+    by_cases hz : (r.rawFields.filter cfg.isQueryField).length = 0
+    · rw [if_pos hz, if_pos hz]; rfl
+    · rw [if_neg hz, if_neg hz]
+      simp only [ok_bind, validateOptionsMask_wf, pure_eq_ok]
+
+/-- `NewRequest` on a well-formed request -/
+theorem parseRequest_encodeReq (cfg : Cfg) (h9 : 9 ≤ cfg.minLen) (h26 : cfg.minLen ≤ 26)
+    (hempty : cfg.isQueryField [] = false) (r : ListRequest) (h : WfReq r) :
+    parseRequest cfg (encodeReq r) =
+      if (knownFields cfg.isQueryField r).length > cfg.maxFields then .error .tooManyFields
+      else if (knownFields cfg.isQueryField r).length = 0 then .error .noFields
+      else .ok { filters := r.filter, fields := knownFields cfg.isQueryField r, challenge := r.challenge } := by
+  have hlen := h.length
+  have h24 := reqBody_length_ge r h
+  generalize hn : (reqBody r).length + 2 = n at hlen
+  have hdata : encodeReq r = UInt8.ofNat (n / 256) :: UInt8.ofNat (n % 256) :: reqBody r := by
+    unfold encodeReq; simp only [hn]
+  have hdl : (encodeReq r).length = n := by rw [hdata]; simp; omega
+  have h2 : ¬ (encodeReq r).length < 2 := by omega
+  have hs2 : goSlice (encodeReq r) 0 2 = some [UInt8.ofNat (n / 256), UInt8.ofNat (n % 256)] := by
+    rw [goSlice_take _ 2 (by omega), hdata]; rfl
+  have hcond : ¬ (n < cfg.minLen ∨ n > (encodeReq r).length) := by omega
+  have hs9 : goSlice (encodeReq r) 9 n = some (r.gameName ++ 0 :: (r.queryGame ++ 0 :: (r.challenge.toList ++ (r.filter ++ 0 ::
+      (0x5c :: (joinFields r.rawFields ++ 0 :: [0, 0, 0, if r.withFields then 1 else 0])))))) := by
+    have hle : 9 ≤ n ∧ n ≤ (encodeReq r).length := by omega
+    simp only [goSlice, hle, and_self, if_true]
+    rw [← hdl, List.take_length, hdata]
+    have e : UInt8.ofNat (n / 256) :: UInt8.ofNat (n % 256) :: reqBody r =
+        (UInt8.ofNat (n / 256) :: UInt8.ofNat (n % 256) :: r.header) ++ (r.gameName ++ 0 :: (r.queryGame ++ 0 :: (r.challenge.toList ++ (r.filter ++ 0 ::
+      (0x5c :: (joinFields r.rawFields ++ 0 :: [0, 0, 0, if r.withFields then 1 else 0])))))) := by
+      simp [reqBody]
+    rw [e]
+    congr 1
+    exact List.drop_left' (by simp [h.header])
+  simp only [parseRequest, h2, if_false, hs2, orPanic_some, ok_bind, be16?_prefix n hlen, hcond, hs9]
+  exact parseBody_wf cfg hempty r h
+
 end Swat4.Browsing
